@@ -209,7 +209,9 @@ def run(res, tier, seed):
             if "panicked" in err:
                 first = first or {"what": "pretty printer panics: " + err.strip().split("\n")[0][:200], "dir": d}
                 continue
-            bad_ctl = sorted(set(ch for ch in pt if ord(ch) < 32 and ch not in "\n\t"))
+            # (the marker lines only: the excerpt line above them shows the source text as it is written)
+            bad_ctl = sorted(set(ch for ln_ in pt.split("\n") if re.match(r" +\| ", ln_) and "^" in ln_
+                                 for ch in ln_ if ord(ch) < 32 and ch != "\t"))
             if bad_ctl and first is None:
                 first = {"what": f"the pretty output contains the control character(s) {bad_ctl!r} (copied from the source line "
                                  "into the marker line: the terminal draws the marker somewhere else)", "dir": d,
